@@ -111,4 +111,11 @@ def estimateMany (lower : String → String) (dflt : SimState) (ramanOn : RamanP
   | 0, s => s
   | n + 1, s => estimateMany lower dflt ramanOn n (estimateRamanGainParams lower dflt ramanOn s).2
 
+/-! ### reload of an exported document -/
+
+/-- `network_from_json` looks up both ends of every connection among the element uids (`nodes[from_node]`,
+`nodes[to_node]`): a connection to a missing element raises NetworkTopologyError -/
+def reloadAccepts (uids : List String) (cxs : List (String × String)) : Bool :=
+  cxs.all (fun c => uids.contains c.1 && uids.contains c.2)
+
 end Gnpy.Chain
